@@ -298,6 +298,7 @@ def specLine (ss : Specs) (lhs rhs : String) : Except String Specs :=
         | .ok () => .ok ss
         | .error m => .error m
       | _, _ => .error "bad query line"
+    | "extend" => if rhs.trimAscii.toString == "ok d=[]" then .ok ss else .error "extend failed"
     | "yields" => .error "a call on the shared (&self) path performed a number of atomic accesses other than one"
     | "drop" =>
       match parseRhs rhs with
@@ -386,6 +387,8 @@ def stepLineW (ws : Worlds) (lhs : String) : Except String (Worlds × String) :=
           | some h => .ok (ws, if w.contains h then "c=1" else "c=0")
           | none => .error "bad contains"
         | "yields" => .ok (ws, "ok")
+        -- `Extend`/`FromIterator`: announced here, followed by one `spawn` line per item
+        | "extend" => .ok (ws, "ok d=[]")
         | "tobs" =>
           match (field args "hs").bind entities? with
           | some hs => .ok (ws, stripArch (obs w hs))
